@@ -128,7 +128,9 @@ class Check:
     def floor(self, what: str, found: int, minimum: int):
         """A rule must match at least `minimum` instances, else the analysis is blind."""
         self.floors.append((what, found, minimum))
-        if found < minimum:
+        if found < minimum and not self.violations:
+            # (with reported violations the shortfall is their consequence - instances that failed were not counted - and the
+            # violations are the verdict)
             raise AnalysisError(f"floor not reached: {what}: found {found} < {minimum}")
 
     def need(self, cond, msg: str):
